@@ -36,6 +36,8 @@ QV = ["v", "u"]
 ZNUM = [2.0, 10.0, 0.512345, 0.512349, 12.5, 6.5, 3.0, 8.0, 9.5, 5.0, 11.0,
         7.0]
 ZSTR = ["q", "p", "zz", "A", "b", "c", "d", "e", "f", "g", "h", "i"]
+# integer labels that are not evenly spaced (coloured by value, not by rank)
+ZINT = [2, 10, 1, 40, 12, 6, 3, 80, 9, 5, 11, 7]
 
 
 def cases(tier, seed):
@@ -71,14 +73,14 @@ def cases(tier, seed):
             masks.append(cells)  # everything NaN
             for mask in masks:
                 for ztype, variant in itertools.product(
-                        ("num", "str"),
+                        ("num", "str", "int"),
                         ("z", "multi", "yerr", "c", "grid", "xvar",
                          "xvar2d", "gridc")):
                     j += 1
                     hk = [kind, nx, nz, mask, ztype, variant]
                     if tier == "quick" and core.pick(hk + ["thin"], 4):
                         continue
-                    if variant in ("multi", "xvar2d") and ztype == "str":
+                    if variant in ("multi", "xvar2d") and ztype != "num":
                         continue
                     inf = core.pick(hk + ["inf"], 5) == 0
                     for t in range(1 if tier == "quick" else 3):
@@ -120,7 +122,7 @@ def cases(tier, seed):
                            "inf": False, "ztype": ztype, "variant": "z",
                            "grid": None, "opts": o}
         for o in ({}, {"colors": True}):
-            for which in ("auto_1d", "auto_2d"):
+            for which in ("auto_1d", "auto_2d", "auto_2dx", "auto_2dx_sq"):
                 yield {"kind": "auto_" + kind, "which": which, "opts": o}
     # ---- histogram ----------------------------------------------------------
     for nz, bins, holes, variant in itertools.product(
@@ -186,7 +188,7 @@ def make_line_ds(case):
     grid = case.get("grid")
     nr = 2 if grid in ("row", "both") else 1
     nq = 2 if grid in ("col", "both") else 1
-    zs = (ZNUM if case["ztype"] == "num" else ZSTR)[:nz]
+    zs = {"num": ZNUM, "str": ZSTR, "int": ZINT}[case["ztype"]][:nz]
     shape = (nx, nz, nr, nq)
     y = np.empty(shape)
     for idx in np.ndindex(*shape):
@@ -549,9 +551,19 @@ def check_auto(case):
 
     if kind in ("auto_lineplot", "auto_scatter"):
         x = np.array(XS)
+        xrows = None
         if case["which"] == "auto_1d":
             y = np.array([3.0, np.nan, 5.0])
             rows = [y]
+        elif case["which"] in ("auto_2dx", "auto_2dx_sq"):
+            # x given per series as well (as many series as points: square)
+            ns = 3 if case["which"] == "auto_2dx_sq" else 2
+            y = np.array([[3.0, 4.0, 5.0], [6.0, np.nan, 8.0],
+                          [1.0, 16.0, 2.0]][:ns])
+            x = np.array([[1.0, 2.0, 4.0], [1.5, 2.5, 4.5],
+                          [0.5, 3.0, 9.0]][:ns])
+            rows = list(y)
+            xrows = list(x)
         else:
             y = np.array([[3.0, 4.0, 5.0], [6.0, np.nan, 8.0]])
             rows = list(y)
@@ -569,9 +581,10 @@ def check_auto(case):
             vio.append((key("series-count"), "%d series for %d rows"
                         % (len(pts), len(rows))))
         else:
-            for r, p in zip(rows, pts):
+            for ri, (r, p) in enumerate(zip(rows, pts)):
                 ok = np.isfinite(r)
-                if not np.array_equal(p, np.column_stack([x[ok], r[ok]])):
+                xr_ = x if xrows is None else xrows[ri]
+                if not np.array_equal(p, np.column_stack([xr_[ok], r[ok]])):
                     vio.append((key("points"), "drawn %r for row %r"
                                 % (p.tolist(), r.tolist())))
         return fin(case, vio, len(rows) >= 2)
